@@ -59,45 +59,45 @@ example : (witnessToBigintJson C10.exW).map render =
     `C10_witness_no_trailing_or_missing_bytes`; the JSON decoder is lenient inside a field.) -/
 theorem C10_json_decoder_ignores_trailing : JsonDecoderIgnoresTrailingStmt := Json.decoder_ignores_trailing
 
-/-! ## the tie to the source text: `Generated/Layouts.lean` is rewritten from protocol.rs on every
-run (`tools/extract.py`): the serde field table of `RLNWitnessInput` and the `json!` object of
-`rln_witness_to_bigint_json`. The model's objects have exactly these keys, and the generated
-tables are the ones the model was written from. -/
+/-! ## the tie to the source: `Generated/Layouts.lean` is rewritten on every run (`tools/extract.py`
+from protocol.rs — the serde field table of `RLNWitnessInput`, the `json!` object of
+`rln_witness_to_bigint_json` — which must agree with `zkh dump`, the keys and value shapes of both
+exports of a marker witness as compiled; rows in key order, the order a `serde_json::Map` iterates
+in). The model's objects have exactly these keys in this order, and the generated tables are the
+ones the model was written from. -/
 
-/-- the serde table of the struct as the source has it now: seven fields, every field element
-    (and the vector of them) through `ark_se` / `ark_de`, the index list as a plain `Vec<u8>` -/
+/-- the serde table as the source has it now: seven fields, every field element (and the vector
+    of them) through `ark_se` / `ark_de`, the index list as a plain `Vec<u8>` -/
 theorem C10_json_struct_source :
-    Generated.Layouts.jsonStructNames = some ["identity_secret", "user_message_limit", "message_id", "path_elements",
-      "identity_path_index", "x", "external_nullifier"] ∧
-    Generated.Layouts.jsonStructKinds = some ["ark:Fr", "ark:Fr", "ark:Fr", "ark:Vec<Fr>", "plain:Vec<u8>", "ark:Fr", "ark:Fr"] := by
+    Generated.Layouts.jsonStructNames = some ["external_nullifier", "identity_path_index", "identity_secret", "message_id",
+      "path_elements", "user_message_limit", "x"] ∧
+    Generated.Layouts.jsonStructKinds = some ["ark:Fr", "plain:Vec<u8>", "ark:Fr", "ark:Fr", "ark:Vec<Fr>", "ark:Fr", "ark:Fr"] := by
   decide +kernel
 
 /-- the decimal export as the source has it now -/
 theorem C10_json_bigint_source :
-    Generated.Layouts.jsonBigintKeys = some ["identitySecret", "userMessageLimit", "messageId", "pathElements",
-      "identityPathIndex", "x", "externalNullifier"] ∧
-    Generated.Layouts.jsonBigintFields = some ["identity_secret:dec", "user_message_limit:dec", "message_id:dec",
-      "path_elements:declist", "identity_path_index:declist", "x:dec", "external_nullifier:dec"] := by
+    Generated.Layouts.jsonBigintKeys = some ["externalNullifier", "identityPathIndex", "identitySecret", "messageId",
+      "pathElements", "userMessageLimit", "x"] ∧
+    Generated.Layouts.jsonBigintFields = some ["external_nullifier:dec", "identity_path_index:declist", "identity_secret:dec",
+      "message_id:dec", "path_elements:declist", "user_message_limit:dec", "x:dec"] := by
   decide +kernel
 
-/-- the model's objects carry exactly the keys of the source's tables (a `BTreeMap`: sorted) -/
+/-- the model's objects carry exactly the keys of the source's tables, in the map's order -/
 theorem C10_json_model_keys : ∀ (w : Witness) (o : JObj),
-    (witnessToJson w = .ok o → ∃ ks, Generated.Layouts.jsonStructNames = some ks ∧ (o.map (·.1)).Perm ks) ∧
-    (witnessToBigintJson w = .ok o → ∃ ks, Generated.Layouts.jsonBigintKeys = some ks ∧ (o.map (·.1)).Perm ks) := by
+    (witnessToJson w = .ok o → Generated.Layouts.jsonStructNames = some (o.map (·.1))) ∧
+    (witnessToBigintJson w = .ok o → Generated.Layouts.jsonBigintKeys = some (o.map (·.1))) := by
   intro w o
   constructor
   · intro h
-    refine ⟨_, C10_json_struct_source.1, ?_⟩
     unfold witnessToJson at h
     split at h
-    · cases h; simp only [List.map_cons, List.map_nil]; decide +kernel
+    · cases h; exact C10_json_struct_source.1
     · cases h
     · cases h
   · intro h
-    refine ⟨_, C10_json_bigint_source.1, ?_⟩
     unfold witnessToBigintJson at h
     split at h
-    · cases h; simp only [List.map_cons, List.map_nil]; decide +kernel
+    · cases h; exact C10_json_bigint_source.1
     · cases h
     · cases h
 
